@@ -59,7 +59,12 @@ def expected(policy, rules, priority, default, components):
 
     def res(outs):
         return outs[0] if len(components) == 1 else dict(zip(components, outs))
+    if policy in ("collect_sum", "collect_min", "collect_max") and len(components) > 1:
+        return None          # an aggregate over several output clauses is not defined: null, whether or not a rule matches
     if not hits:
+        if default and len(components) > 1:
+            # several output clauses: the default output is the context of the clauses' default entries (when only some clauses define one the statement does not settle the result)
+            return dict(zip(components, default)) if len(default) == len(components) else "?"
         return (default[0] if default and len(default) == 1 else None)
 
     def prio(outs):
@@ -103,6 +108,8 @@ DOUBLE = [
     ([(True, ["a", "x"]), (True, ["b", "y"])], [], None),
     ([(False, ["a", "x"]), (False, ["b", "y"])], [], None),
     ([(True, ["a", "x"]), (True, ["a", "x"])], [], None),
+    ([(False, ["a", "x"]), (False, ["b", "y"])], [], ["d", "e"]),
+    ([(True, ["a", "x"]), (False, ["b", "y"])], [], ["d", "e"]),
 ]
 POLICIES = ("unique", "any", "priority", "first", "rule_order", "output_order", "collect_list", "collect_count", "collect_sum", "collect_min", "collect_max")
 
@@ -205,7 +212,9 @@ def run(F, rep, tier="quick"):
         for rules, priority, default in DOUBLE:
             got, note = fold(F, policy, rules, priority, default, ("p", "q"))
             want = expected(policy, rules, priority, default, ("p", "q"))
-            label = "two outputs, rules %s" % [("+" if m else "-") + "/".join(o) for m, o in rules]
+            label = "two outputs, rules %s%s" % ([("+" if m else "-") + "/".join(o) for m, o in rules], (", defaults %s" % default) if default else "")
+            if want == "?":
+                continue
             if has_unknown(got):
                 unknown.append("%s: %s" % (label, note or show(got)))
             elif got != want:
